@@ -792,6 +792,15 @@ func c09SameKey(a, b ssa.Value) bool {
 	if c09CellSource(a) != nil && c09CellSource(a) == c09CellSource(b) {
 		return true
 	}
+	// a local captured by a closure is read through its cell on both sides
+	if ra, rb := c09Resolved(a), c09Resolved(b); (ra != a || rb != b) && ra != nil && rb != nil {
+		if ra == rb {
+			return true
+		}
+		if ra2, rb2 := Roots(ra), Roots(rb); len(ra2) == 1 && len(rb2) == 1 && ra2[0] == rb2[0] {
+			return true
+		}
+	}
 	ra, rb := Roots(a), Roots(b)
 	if len(ra) == 0 || len(ra) != len(rb) {
 		return false
@@ -817,8 +826,32 @@ func c09CellSource(v ssa.Value) ssa.Value {
 	if !ok || u.Op != token.MUL {
 		return v
 	}
-	a, ok := u.X.(*ssa.Alloc)
-	if !ok {
+	var a *ssa.Alloc
+	switch x := u.X.(type) {
+	case *ssa.Alloc:
+		a = x
+	case *ssa.FreeVar:
+		// a variable captured by a closure (range-over-func bodies capture every local they use):
+		// the cell of the enclosing function, if every closure instance binds the same one
+		for _, b := range freeVarBindings(x) {
+			// bindings of nested closures are free variables of the parent: follow them
+			for depth := 0; depth < 3; depth++ {
+				if fv, isFV := b.(*ssa.FreeVar); isFV {
+					bs := freeVarBindings(fv)
+					if len(bs) != 1 {
+						return nil
+					}
+					b = bs[0]
+				}
+			}
+			ba, isAlloc := b.(*ssa.Alloc)
+			if !isAlloc || (a != nil && a != ba) {
+				return nil
+			}
+			a = ba
+		}
+	}
+	if a == nil {
 		return nil
 	}
 	st := storesTo(a)
@@ -826,6 +859,23 @@ func c09CellSource(v ssa.Value) ssa.Value {
 		return nil
 	}
 	return st[0].Val
+}
+
+// c09Resolved follows single-store cells (also captured ones) to the value stored.
+func c09Resolved(v ssa.Value) ssa.Value {
+	for i := 0; i < 4 && v != nil; i++ {
+		v = strip(v)
+		u, ok := v.(*ssa.UnOp)
+		if !ok || u.Op != token.MUL {
+			return v
+		}
+		src := c09CellSource(v)
+		if src == nil || src == v {
+			return v
+		}
+		v = src
+	}
+	return v
 }
 
 // c09PathThrough: there is a path entry -> K -> some Return that avoids the cut.
@@ -853,7 +903,7 @@ func c09R2(c *Ctx) {
 		c.LostAnchor(R2, "~/internal/resolver.Memory{index,tags}")
 		return
 	}
-	for _, f := range c.P.FuncsOfPkg("internal/resolver") {
+	for _, f := range c09FuncsOfPkg(c.P, "internal/resolver") {
 		fname := FnName(f)
 		// every use of a loaded index map
 		var kills []ssa.Instruction
